@@ -72,10 +72,53 @@ def inventory_section():
     return "\n".join(out)
 
 
+def read_module_dicts(pid):
+    path = os.path.join(HERE, "harness", "props", pid.lower() + ".py")
+    out = {}
+    if not os.path.exists(path):
+        return out
+    tree = ast.parse(open(path).read())
+    for node in tree.body:
+        if isinstance(node, ast.Assign):
+            for t in node.targets:
+                name = getattr(t, "id", None)
+                if name in ("CLAIM", "TRUSTED", "RULE"):
+                    try:
+                        v = node.value
+                        if isinstance(v, ast.Call) and getattr(v.func, "id", "") == "dict":
+                            out[name] = {k.arg: ast.literal_eval(k.value) for k in v.keywords}
+                        else:
+                            out[name] = ast.literal_eval(v)
+                    except Exception:
+                        pass
+    return out
+
+
+def claims_section():
+    out = []
+    for l in open(os.path.join(HERE, "properties.jsonl")):
+        p = json.loads(l)
+        pid = p["id"]
+        d = read_module_dicts(pid)
+        c = d.get("CLAIM", {})
+        out.append(f"### {pid} — {p['title']}\n")
+        out.append(f"*Technique.* {c.get('technique', '')}\n")
+        out.append(f"*Proved (Lean) and how it is tied to the code.* {c.get('text', '')}\n")
+        out.append(f"*Assumed / trusted.* {c.get('note', '')}\n")
+        tr = d.get("TRUSTED", [])
+        if tr:
+            out.append("*Modelled vs only checked (from the module's TRUSTED list).*\n")
+            out += [f"* {t}" for t in tr]
+            out.append("")
+        if d.get("RULE"):
+            out.append(f"*Case generation / non-triviality rule.* {d['RULE']}\n")
+    return "\n".join(out)
+
+
 def main():
     p = os.path.join(HERE, "DESIGN.md")
     s = open(p).read()
-    for tag, text in (("SEEDED", seeded_section()), ("INVENTORY", inventory_section())):
+    for tag, text in (("SEEDED", seeded_section()), ("INVENTORY", inventory_section()), ("CLAIMS", claims_section())):
         a, b = f"<!-- AUTO:{tag}:BEGIN -->", f"<!-- AUTO:{tag}:END -->"
         if a not in s:
             print("marker missing", tag)
